@@ -499,6 +499,10 @@ def get_global_filters(context, until_position, origin_scope):
             until_position = None
 
         context = context.parent_context
+        # The names of a class body are only visible in that body itself, not
+        # in the scopes nested in it (nested classes, comprehensions, ...).
+        while context is not None and (context.is_class() or context.is_instance()):
+            context = context.parent_context
 
     b = next(base_context.inference_state.builtins_module.get_filters(), None)
     assert b is not None
